@@ -70,3 +70,24 @@ package scheduler
 //@   requires forall k core.InfoHash :: k in s.torrentControls ==> s.torrentControls[k] != nil && allocated(s.torrentControls[k])
 //@   modifies *
 //@   ensures answered_or_registered: sent(e.errc) >= old(sent(e.errc)) + 1 || (ctrl != nil && len(ctrl.errors) >= 1 && ctrl.errors[len(ctrl.errors) - 1] == e.errc)
+
+// ---- the scheduler's use of the announce queue (property C20) -------------------------------------------
+//
+// The queue is seen through the ghost sets rdy / pend of the Queue interface
+// (contracts/externs/announcequeue.spec, mirroring what is proved for QueueImpl). A torrent is never
+// waiting and in flight at once: every event handler that touches the queue keeps rdy and pend
+// disjoint. In particular a torrent taken by Next and skipped is handed back with Ready, not Add.
+//@ specfunc qdis(q announcequeue.Queue) bool = forall h core.InfoHash :: !((h in q.rdy) && (h in q.pend))
+
+//@ func announceTickEvent.apply
+//@   requires s != nil && s.announceQueue != nil && s.conns != nil && s.torrentControls != nil && qdis(s.announceQueue)
+//@   modifies *
+//@   ensures queue_consistent: qdis(s.announceQueue)
+//@   loop 0 invariant same: s.announceQueue == entry(s.announceQueue) && s.announceQueue != nil && s.conns != nil && s.torrentControls != nil
+//@   loop 0 invariant consistent: qdis(s.announceQueue)
+//@   loop 1 invariant consistent: s.announceQueue == entry(s.announceQueue) && s.announceQueue != nil && qdis(s.announceQueue) && 0 - 1 <= rangeindex && rangeindex < len(skipped)
+
+//@ func announceErrEvent.apply
+//@   requires s != nil && s.announceQueue != nil && qdis(s.announceQueue)
+//@   modifies *
+//@   ensures queue_consistent: qdis(s.announceQueue)
